@@ -141,15 +141,22 @@ def spec_form(eng, name, node, st):
                 st.env[v.id] = c
                 st.env["$q:" + v.id] = c
                 bound.append(c)
+            trig_nodes = []
             for kw in node.keywords:
+                if kw.arg == "triggers":
+                    trig_nodes = list(kw.value.elts) if isinstance(kw.value, (ast.List, ast.Tuple)) else [kw.value]
+                    continue
                 sort = eng.reg.sort_by_name(kw.value.id if isinstance(kw.value, ast.Name) else ast.unparse(kw.value))
                 val = sort.fresh("q_" + kw.arg)
                 st.env[kw.arg] = val
                 st.env["$q:" + kw.arg] = val
                 bound.append(to_z3(val))
             b = eng.clause_to_bool(eng.eval(body, st))
+            pats = [to_z3(eng.eval(t, st)) for t in trig_nodes]      # alternative E-matching patterns given in the spec
         finally:
             st.env = saved
+        if pats and name == "forall":
+            return forall_pat(bound, b, pats)
         return z3.ForAll(bound, b) if name == "forall" else z3.Exists(bound, b)
     if name == "implies":
         a = eng.clause_to_bool(eng.eval(node.args[0], st))
@@ -573,6 +580,22 @@ def method_call(eng, recv, recv_node, name, node, st):
             _check_alias(eng, recv_node, st)
             eng.assign(recv_node, VSet(recv.key, z3.Store(recv.dom, to_z3(args[0], recv.key), True)), st, True)
             return NONE
+        if name == "clear" and not args:
+            _check_alias(eng, recv_node, st)
+            eng.assign(recv_node, VSet(recv.key, z3.K(recv.key.z3sort(), z3.BoolVal(False))), st, True)
+            return NONE
+        if name == "update" and len(args) == 1:
+            _check_alias(eng, recv_node, st)
+            other = args[0]
+            k = z3.Const(fresh_name("k"), recv.key.z3sort())
+            if isinstance(other, VList):
+                ii = z3.Int(fresh_name("i"))
+                eng.assign(recv_node, VSet(recv.key, z3.Lambda([k], z3.Or(recv.dom[k], z3.Exists([ii], z3.And(ii >= 0, ii < other.len, other.arr[ii] == k))))), st, True)
+                return NONE
+            if isinstance(other, VSet):
+                eng.assign(recv_node, VSet(recv.key, z3.Lambda([k], z3.Or(recv.dom[k], other.dom[k]))), st, True)
+                return NONE
+            raise Unsupported("set.update(%r)" % (other,))
         if name in ("discard", "remove"):
             _check_alias(eng, recv_node, st)
             kz = to_z3(args[0], recv.key)
